@@ -71,6 +71,7 @@ type lifeScenario struct {
 	DoubleCloseErr bool          // server-side connections fail a second Close, as real sockets do
 	SecondServe    string        // "" | "cancel" | "shutdown": after a serving that ended by context cancellation the same Server value serves again on a new listener, and that serving is ended this way
 	LongSession    bool          // the lifecycle action comes only after 26-30 simulated seconds: connections that stay silent are closed by the server's idle limit first
+	SameAddr       bool          // every connection reports the same remote address (as on a net.Pipe or unix-socket listener): callbacks cannot tell connections apart, per-connection callback oracles become totals
 	Race           bool
 }
 
@@ -214,6 +215,7 @@ func genC17(t *Tape) *lifeScenario {
 	sc.TriggerDelay = []time.Duration{0, 0, 200 * time.Microsecond, 3 * time.Millisecond}[t.Choose(4)]
 	sc.WriteDelay = []time.Duration{0, 0, time.Millisecond, 15 * time.Millisecond}[t.Choose(4)]
 	sc.DoubleCloseErr = t.Choose(2) == 1
+	sc.SameAddr = t.Choose(5) == 0
 	if t.Chance(1, 40) {
 		sc.LongSession = true
 		sc.Trigger, sc.TriggerDelay = "time", 0
@@ -276,6 +278,9 @@ func (h *lifeHandler) Handle(ctx context.Context, req packet.Request) (packet.Re
 		return nil, ctx.Err()
 	}
 	if op != nil && op.Panic {
+		if tid%2 == 1 {
+			panic(uncomparablePanic{"handler panics on purpose"})
+		}
 		panic("handler panics on purpose")
 	}
 	dev := NewDevice(Mix(h.seed, uint64(unit), 7))
@@ -321,6 +326,9 @@ func runLife(rc *RunCtx, sc *lifeScenario, seed uint64) *lifeOutcome {
 	ln := NewListener(s, "L")
 	ln.ConnSetup = func(cl, sv *Conn) {
 		sv.DoubleCloseErr = sc.DoubleCloseErr
+		if sc.SameAddr && !strings.HasPrefix(cl.Name, "M-") {
+			sv.AddrOverride = "pipe"
+		}
 		if sc.WriteDelay > 0 {
 			sv.WriteDelay = func() time.Duration { return sc.WriteDelay }
 		}
@@ -832,6 +840,9 @@ func checkC17(rc *RunCtx, sc *lifeScenario, out *lifeOutcome, seed uint64) {
 	}
 	// --- accounting told to the accept callback ---
 	for _, a := range out.Accepts {
+		if sc.SameAddr {
+			break // which server-side connections are closed cannot be attributed through the callbacks' argument
+		}
 		lo := uint64(1 + a.Adds - a.Closed)
 		if a.Adds-a.Closed < 0 {
 			lo = 1
@@ -855,7 +866,7 @@ func checkC17(rc *RunCtx, sc *lifeScenario, out *lifeOutcome, seed uint64) {
 		}
 	}
 	for i, c := range out.ClientConn {
-		if c == nil {
+		if c == nil || sc.SameAddr {
 			continue
 		}
 		name := c.Name
@@ -874,7 +885,28 @@ func checkC17(rc *RunCtx, sc *lifeScenario, out *lifeOutcome, seed uint64) {
 		if out.ShutdownStartStep > 0 && out.ShutdownStartStep < endStep {
 			endStep = out.ShutdownStartStep
 		}
+		if sc.SameAddr {
+			// totals: as many close callbacks as connections the accept callback let in, none twice over
+			nacc, nclosecb := 0, out.CloseCB["pipe"]
+			for _, a := range out.Accepts {
+				if !a.Rejected {
+					nacc++
+				}
+			}
+			late := 0
+			for _, sv := range outServerConns(out) {
+				if sv.acceptStep >= endStep {
+					late++
+				}
+			}
+			if sc.Callbacks&4 != 0 && (nclosecb > nacc || nclosecb < nacc-late) {
+				rc.Violate("close_cb_count", fmt.Sprintf("%s|same_remote_addr", cb), "%d connections were let in by OnAcceptConnFunc (%d of all came out of Accept after serving had begun to end), OnCloseConnFunc was called %d times", nacc, late, nclosecb)
+			}
+		}
 		for _, sv := range outServerConns(out) {
+			if sc.SameAddr {
+				break
+			}
 			remote := sv.peer.Name
 			if !sv.acceptedByServer || rejected[remote] {
 				continue
